@@ -1,6 +1,7 @@
 import DocsModel.Props.Live
 import DocsModel.Props.C09Gossip
 import DocsModel.Props.C13Codec
+import DocsModel.Props.C13
 /-!
 # From one live actor to the next: what is handed to gossip is what the receive loop acts on
 
@@ -91,5 +92,30 @@ theorem report_while_busy_is_remembered (s : LState) (from_ ns heads : Bytes) (o
     · exact absurd rfl hbusy
     · simp [slot?_set s ns from_ _ d hd]
     · simp [slot?_set s ns from_ _ d hd]
+
+/-- C13 end to end: a session that brought entries, at a node that syncs the document with an active
+topic, is followed by a report to the neighbours that carries the received heads in the bounded
+newest-first encoding, never larger than a gossip message; each neighbour's receive loop hands exactly
+those bytes, with the sender, to `on_sync_report` -/
+theorem finished_session_report_arrives (s : LState) (ns p : Bytes) (origin recv sent : Nat) (heads : Heads.H)
+    (hs : s.syncing ns = true) (ht : s.topics.contains ns = true) (hrecv : recv > 0)
+    (hmax1 : 1 ≤ s.maxMessageSize) (hmax2 : s.maxMessageSize < 2 ^ 64) (hns : ns.length = 32)
+    (from_ : Bytes) (direct : Bool) :
+    ∃ b pl, Heads.encode heads (some s.maxMessageSize) = some b ∧ b.length ≤ s.maxMessageSize ∧
+      Out.broadcast ns true pl ∈ (s.onSyncFinished ns p origin (some (recv, sent, heads))).2 ∧
+      gossipReceive pl from_ direct = .incomingSyncReport from_ ns b := by
+  have hsome := Heads.encode_ok_of_pos_limit heads s.maxMessageSize hmax1
+  obtain ⟨b, hb⟩ := Option.isSome_iff_exists.mp hsome
+  have hlen := Heads.encode_never_exceeds_limit heads s.maxMessageSize b hb
+  refine ⟨b, encGOp (.syncReport ns b), hb, hlen, ?_, gossip_report_is_forwarded ns b from_ hns (by omega) direct⟩
+  have hf : Out.broadcast ns true (encGOp (.syncReport ns b)) ∈ s.finishedOuts ns p (some (recv, sent, heads)) := by
+    have ht' : ns ∈ s.topics := by simpa using ht
+    simp [LState.finishedOuts, hrecv, hb, LState.bcastNeighbors, hs, ht']
+  unfold LState.onSyncFinished
+  split
+  · exact hf
+  · split
+    · exact hf
+    · exact List.mem_append_left _ hf
 
 end Live
